@@ -6,7 +6,8 @@
      pmask h = 2^128 - 2^h is the prefix mask with h host bits;
      a configured value is  CNet a h      the network a/(128-h)  (a single address when h = 0), or
                             CRange a b h  the addresses a..b (h = 0) / the networks a/(128-h)..b/(128-h);
-     cv_ok c: no host bits below the mask, ends ordered, everything below 2^128;
+     cv_ok c: no host bits below the mask, ends ordered, everything below 2^128 (and a range that ends at
+       0.0.0.0 starts there: a second address 0.0.0.0 or :: means "no second address" to the code);
      cv_in x c: x belongs to the set c stands for (an interval, stated without masks);
      cv_val c: the (addr1, addr2, mask) triple acl_ip_data::FactoryParse() stores for c;
      acl_parse / acl_match: ACLIP::parse() / ACLIP::match() over the splay tree;
